@@ -184,6 +184,8 @@ def _score_dtype(case, scores):
     if case.get("mode") == "adjacent32":
         return "float32"
     dt = case.get("score_dtype")
+    if case.get("mode") == "bytes":
+        return dt if dt in ("uint8", "uint16", "int64") else "uint8"
     if dt and all(float(v).is_integer() and 0 <= v <= 100 for v in scores):
         return dt
     return None
@@ -325,6 +327,7 @@ _SCORES = {
     # exist, so every cut between them is a legitimate thresholding
     "near": st.tuples(st.sampled_from([0.0, 0.5, 1.0]), st.integers(0, 3)).map(lambda t: t[0] + t[1] * 1e-7),
     "small_ints": st.integers(0, 3).map(float),
+    "bytes": st.sampled_from([0, 1, 100, 127, 128, 200, 254, 255]).map(float),  # a 0..255 risk score (uint8 / int64 column)
     # neighbouring floating point numbers (0.3 and 0.1 + 0.2 are such a pair): the midpoint of two levels rounds to one
     # of them, so a cut between them exists only as '> lower' / '< upper'; also subnormal levels k * 5e-324
     "adjacent": st.tuples(st.sampled_from([0.3, 1.0, 0.5, 100.0, 0.1]), st.integers(0, 3)).map(lambda t: _ulps(t[0], t[1])),
